@@ -426,6 +426,33 @@ def shard_instances(sh):
         got, badline = reduce_output(text)
         if got is None or len(exp) != len(got) or not all(same(e, g) for e, g in zip(exp, got)):
             st.violation('print-structure:cleared-filter-still-applies', script, '\n'.join(map(str, exp)), text.decode('latin-1'))
+    # a filter that was in force while the instances were created is not theirs: replacing or clearing it on the context later
+    # reaches every instance that has none of its own
+    cases, metas = [], []
+    names = ['pffnames %d %s' % (k, ' '.join(enc(n) for n in nm)) for k, nm in FILTERS.items()]
+    for f in (1, 2, 3):
+        for g in (0, 1, 2, 3):
+            if g == f:
+                continue
+            lines = ['init A %s 0' % sch.sid, 'cb_quiet 1'] + names + ['set_pff A %d' % f, 'parse_buf A ' + enc(stext),
+                     'set_pff A %s' % (g if g else '-'), 'print A']
+            cases.append(Case(lines))
+            metas.append({id(store): set(FILTERS[g])} if g else {})
+    for c, r, own in zip(cases, drv.run(cases), metas):
+        st.evaluations += 1
+        st.transitions += 1
+        st.validated += 1
+        script = 'schema %s %s\n%s' % (sch.sid, sch.spec(), c.script())
+        if r.status in ('crash', 'hang'):
+            st.violation('%s:%s' % (r.status, engine.sanitizer_summary(r.info)), script, '', engine.excerpt(r.info))
+            continue
+        outs = r.all('out ')
+        text = dec(outs[0].split(' ')[2]) if outs else b''
+        filters_of = lambda s_, own=own: own.get(id(s_))
+        exp = rel(entries(store, own.get(id(store)), 0, filters_of))
+        got, badline = reduce_output(text)
+        if got is None or len(exp) != len(got) or not all(same(e, g_) for e, g_ in zip(exp, got)):
+            st.violation('print-structure:filter-of-creation-time-sticks', script, '\n'.join(map(str, exp)), text.decode('latin-1'))
     # a print callback that is cleared again (NULL) is gone: the built-in formatting is back for exactly that option
     for name in ('i', 'l'):
         if name not in pfset:
